@@ -142,6 +142,25 @@ M = [
                     for key, value in pv_event.items()
                     if key != "applicationName\"""",
      "saving with a mapping config drops applicationName"),
+    ("h-c04-jobkey", "C04", ["C04"], "tel2puml/otel_to_puml.py",
+     """            job_name, events = load_events_from_file(str(input_puml_model))
+            events_to_jobs_map[job_name] = events""",
+     """            _, events = load_events_from_file(str(input_puml_model))
+            job_name = os.path.basename(str(input_puml_model)).replace(
+                "_model.json", ""
+            )
+            events_to_jobs_map[job_name] = events""",
+     "loaded models are keyed by the model file's name instead of the job "
+     "name stored in it: a workflow whose name contains a space (file name "
+     "WF_b_model.json, job name 'WF b') is learnt from scratch in the later "
+     "run (otel2puml route, several workflows)"),
+    ("h-c04-lastmodel", "C04", ["C04"], "tel2puml/otel_to_puml.py",
+     """            events_to_jobs_map[job_name] = events
+""",
+     """            events_to_jobs_map = {job_name: events}
+""",
+     "only the last model of the -im list is kept: every other workflow of "
+     "an otel2puml run is learnt from scratch"),
     ("h-revert-5f3ad58", "C04", ["C04"], "tel2puml/events.py",
      """        if event.event_sets:
             # logic gate tree must be calculated from the loaded event sets
